@@ -168,6 +168,11 @@ inductive Operand where
   | chain (c : Chain)
   | lit (v : Option Int)
   | other (k : OtherOperand)
+  /-- a bare variable as comparator operand (`x == obj`).  `sample` = the first element of the variable's domain, which
+  is what `DomainValueExtractor.extract_from_variable` reads (the domain is part of the query) -/
+  | var (v : Nat) (sample : Option Nat)
+  /-- an object literal: object `i` of the store -/
+  | obj (i : Nat)
   deriving Repr, DecidableEq
 
 /-- table decoding the ranks of string values/literals (strings as character lists; rank k ↦ entry k-1) -/
@@ -190,6 +195,9 @@ inductive Expr where
   /-- substring test `contains(container, item)` = `in_(item, container)` = `Comparator(container, item,
   operator.contains)` on strings (`item in container`); `tab` decodes the string ranks occurring in it -/
   | substr (tab : StrTab) (container item : SOperand)
+  /-- a bare STRING attribute used as a condition (truthiness of a string: `''` and `None` are falsy); `tab` decodes the
+  ranks the string column holds -/
+  | strAttr (tab : StrTab) (c : Chain)
   -- constructors outside the dispatch of `translate_query`
   | not (e : Expr)
   | exist (v : Nat) (e : Expr)
@@ -246,6 +254,17 @@ inductive SqlCond where
   | instr (tab : StrTab) (container item : SqlSOperand)
   /-- `col LIKE '%' || :lit || '%'` (`column.contains("lit")`, no autoescape) -/
   | like (tab : StrTab) (c : ColRef) (lit : Nat)
+  /-- `WHERE <text column>`: a TEXT value in a boolean context is cast to NUMERIC by SQLite (F-C07-6) -/
+  | truthyStr (tab : StrTab) (c : ColRef)
+  /-- `WHERE true` / `WHERE false`: a comparison of a whole variable with an object was evaluated by PYTHON at translation
+  time, on the first element of the variable's domain (F-C07-7).  `v`, `i`, `neg` record what it stood for: variable `v`
+  is (`neg`: is not) object `i`. -/
+  | pyConst (b : Bool) (v i : Nat) (neg : Bool)
+  /-- repaired rendering of `truthyStr`: `col IS NOT NULL AND col != ''` -/
+  | strNonEmpty (tab : StrTab) (c : ColRef)
+  /-- repaired rendering of `pyConst`: the primary key of the FROM element of variable `v` is (`neg`: is not) that of
+  object `i` -/
+  | rowIs (v i : Nat) (neg : Bool)
   deriving Repr, DecidableEq
 
 /-- `select(anchor).join(alias_of_target_variable, onclause = alias.targetRel_id == anchor.anchorRel_id)`;
@@ -337,6 +356,7 @@ def trOperand (S : Schema) (vars : List Cls) (o : Operand) (st : St) : Except Fa
   -- the node was passed through untranslated and SQLAlchemy raised ArgumentError)
   | .other .index | .other .call | .other .flatten | .other .nested => .error (.rejected .unsupportedQueryType)
   | .other _ => .error .outsideModel
+  | .var _ _ | .obj _ => .error .outsideModel     -- only modelled as `variable ==/!= object` (`varObj?`)
 
 /-- the outcome of `_handle_attribute_equality_join` -/
 inductive EqJoinOutcome where
@@ -393,6 +413,32 @@ def eqJoinFor (S : Schema) (vars : List Cls) (underOr : Bool) (op : Cmp) (l r : 
   | .eq, .chain lc, .chain rc => if underOr then .fallthrough else eqJoinAttempt S vars lc rc st
   | _, _, _ => .fallthrough
 
+/-- a comparison of a whole variable with an object literal (either order): `(variable, sample, object)` -/
+def varObj? : Operand → Operand → Option (Nat × Option Nat × Nat)
+  | .var v smp, .obj i => some (v, smp, i)
+  | .obj i, .var v smp => some (v, smp, i)
+  | _, _ => none
+
+/-- `_resolve_dao_instance`: a sample that has an `id_` or a `name` attribute is looked up in the database and replaced
+by the database id of its row -/
+def resolvesToDbId (S : Schema) (c : Cls) : Bool := hasCol S c "id_" || hasCol S c "name"
+
+/-- `x == obj` / `x != obj` as the code translates it today (F-C07-7): `_translate_comparator_operand` turns the
+Variable into the first element of its domain (`extract_from_variable`; into that element's database id when the class
+has a `name`/`id_`), the Literal into the object, and `map_comparison_operator` applies Python's `==` / `!=` to the two
+Python values: the WHERE clause is the constant `true` or `false`. -/
+def trVarObj (S : Schema) (vars : List Cls) (op : Cmp) (v : Nat) (smp : Option Nat) (i : Nat) (st : St) :
+    Except Fail (Option SqlCond × St) :=
+  match vars[v]?, smp with
+  | some c, some k =>
+    if (findClass S c).isNone then .error (.rejected .missingDAO) else
+    let same : Bool := if resolvesToDbId S c then false else k == i     -- an int never equals an object
+    match op with
+    | .eq => .ok (some (.pyConst same v i false), st)
+    | .ne => .ok (some (.pyConst (!same) v i true), st)
+    | _ => .error .outsideModel                        -- ordering of two objects: TypeError in both worlds
+  | _, _ => .error .outsideModel
+
 /-- `translate_query`.  The result part is `none` when the atom was turned into a JOIN. -/
 def tr (S : Schema) (vars : List Cls) (underOr : Bool) : Expr → St → Except Fail (Option SqlCond × St)
   | .and l r, st =>
@@ -410,10 +456,13 @@ def tr (S : Schema) (vars : List Cls) (underOr : Bool) : Expr → St → Except 
       | .error f => .error f
       | .ok (pr, st2) => .ok (combine .or pl pr, st2)
   | .cmp op l r, st =>
-    match eqJoinFor S vars underOr op l r st with
-    | .fallthrough => trOrdinary S vars op l r st
-    | .joined st' => .ok (none, st')
-    | .fail f => .error f
+    match varObj? l r with
+    | some (v, smp, i) => trVarObj S vars op v smp i st
+    | none =>
+      match eqJoinFor S vars underOr op l r st with
+      | .fallthrough => trOrdinary S vars op l r st
+      | .joined st' => .ok (none, st')
+      | .fail f => .error f
   | .isIn item vs, st =>
     match item with
     | .chain c =>
@@ -424,6 +473,7 @@ def tr (S : Schema) (vars : List Cls) (underOr : Bool) : Expr → St → Except 
     | .lit _ => .error .outsideModel
     | .other .index | .other .call | .other .flatten | .other .nested => .error (.rejected .unsupportedQueryType)
     | .other _ => .error .outsideModel
+    | .var _ _ | .obj _ => .error .outsideModel
   | .attr c, st =>
     match trChain S vars c st with
     | .error f => .error f
@@ -446,6 +496,11 @@ def tr (S : Schema) (vars : List Cls) (underOr : Bool) : Expr → St → Except 
       | .error f => .error f
       | .ok (b, st2) => .ok (some (.instr tab (.col a) (.col b)), st2)
   | .substr _ (.lit _) (.lit _), _ => .error .outsideModel
+  -- a bare string attribute: `translate_attribute` returns the column, which becomes the WHERE clause as it is
+  | .strAttr tab c, st =>
+    match trChain S vars c st with
+    | .error f => .error f
+    | .ok (col, st1) => .ok (some (.truthyStr tab col), st1)
   | .not _, _ => .error (.rejected .unsupportedQueryType)
   | .exist _ _, _ => .error (.rejected .unsupportedQueryType)
   | .all _ _, _ => .error (.rejected .unsupportedQueryType)
@@ -574,6 +629,22 @@ def strOf (tab : StrTab) : Val → Option (List Char)
   | .num n => if n ≤ 0 then none else tab[n.toNat - 1]?
   | _ => none
 
+def isDigitC (c : Char) : Bool := 48 ≤ c.toNat && c.toNat ≤ 57
+
+/-- SQLite's truth value of a TEXT value in a boolean context (`WHERE name`): the text is cast to NUMERIC — blanks, an
+optional sign, then the longest prefix `digits [. digits]` (an exponent cannot make a non-zero mantissa zero; hexadecimal is
+not recognised) — and compared with 0.  Text without a numeric prefix is 0, i.e. false. -/
+def sqliteTextTruthy (s : List Char) : Bool :=
+  let s := s.dropWhile (· == ' ')
+  let s := match s with
+    | '-' :: r => r
+    | '+' :: r => r
+    | _ => s
+  let frac := match s.dropWhile isDigitC with
+    | '.' :: r => r.takeWhile isDigitC
+    | _ => []
+  (s.takeWhile isDigitC ++ frac).any (· != '0')
+
 def and3 : Option Bool → Option Bool → Option Bool
   | some false, _ => some false
   | _, some false => some false
@@ -608,6 +679,25 @@ def evalSql (db : DB) (env : List Nat) : SqlCond → Option Bool
     | .num n => some (n != 0)
     | .ref _ => some true
     | .null => none
+  | .truthyStr tab c =>
+    match (sqlColVal db env c).getD .null with
+    | .null => none
+    | v => (strOf tab v).map sqliteTextTruthy
+  | .pyConst b _ _ _ => some b
+  | .strNonEmpty tab c =>
+    match (sqlColVal db env c).getD .null with
+    | .null => some false
+    | v => (strOf tab v).map fun s => !s.isEmpty
+  | .rowIs v i neg => (env[v]?).map fun r => (r == i) != neg
+
+/-- the statement a repaired translator would produce (fix candidates for F-C07-6 / F-C07-7): a string column as a
+condition is `IS NOT NULL AND != ''`, a variable compared with an object is a comparison of primary keys -/
+def SqlCond.repair : SqlCond → SqlCond
+  | .and a b => .and a.repair b.repair
+  | .or a b => .or a.repair b.repair
+  | .truthyStr tab c => .strNonEmpty tab c
+  | .pyConst _ v i neg => .rowIs v i neg
+  | c => c
 
 /-- WHERE keeps a row iff the condition is TRUE (not FALSE, not UNKNOWN) -/
 def whereTrue (db : DB) (env : List Nat) : Option SqlCond → Bool
@@ -683,6 +773,8 @@ def operandVal (db : DB) (env : List Nat) : Operand → Option Val
   | .chain c => chainVal db env c
   | .lit v => some (litVal v)
   | .other _ => none
+  | .var v _ => (env[v]?).map .ref       -- the object bound to the variable (compared objects are value-distinct)
+  | .obj i => some (.ref i)
 
 /-- truth of a condition under one assignment `env` of the variables; `none` = evaluation raises
 (or the construct is outside this reference semantics: it is only needed where the translator accepts). -/
@@ -712,6 +804,11 @@ def evalCond (db : DB) (env : List Nat) : Expr → Option Bool
     match sv container, sv item with
     | some c, some i => some (isInfixL i c)
     | _, _ => none
+  | .strAttr tab c =>
+    match chainVal db env c with
+    | some .null => some false                                   -- `None` is falsy
+    | some v => (strOf tab v).map fun s => !s.isEmpty            -- `''` is falsy, every other string truthy
+    | none => none
   | _ => none
 
 /-- all assignments of the non-selected variables -/
@@ -785,6 +882,7 @@ def exprChains : Expr → List Chain
     (match l with | .chain c => [c] | _ => []) ++ (match r with | .chain c => [c] | _ => [])
   | .isIn item _ => (match item with | .chain c => [c] | _ => [])
   | .attr c => [c]
+  | .strAttr _ c => [c]
   | .substr _ a b =>
     (match a with | .chain c => [c] | _ => []) ++ (match b with | .chain c => [c] | _ => [])
   | .not e | .exist _ e | .all _ e => exprChains e
@@ -808,5 +906,19 @@ def trigEqJoin (s : SqlQuery) : Bool := s.flags.contains .eqJoinUnderOr || s.fla
 
 /-- F-C07-5: `contains(column, "literal")` rendered with LIKE (case-insensitive, `%`/`_` of the literal are wildcards) -/
 def trigLike (s : SqlQuery) : Bool := s.flags.contains .likeSubstring
+
+/-- F-C07-6: a bare string attribute is (part of) the condition -/
+def hasStrAttr : Expr → Bool
+  | .and l r | .or l r => hasStrAttr l || hasStrAttr r
+  | .strAttr _ _ => true
+  | _ => false
+
+/-- F-C07-7: a whole variable is compared with an object -/
+def hasVarObj : Expr → Bool
+  | .and l r | .or l r => hasVarObj l || hasVarObj r
+  | .cmp _ l r => (varObj? l r).isSome
+  | _ => false
+
+def SqlQuery.repair (s : SqlQuery) : SqlQuery := { s with whr := s.whr.map SqlCond.repair }
 
 end KrroodVerif.SqlTr
